@@ -2,7 +2,7 @@ SPECIFICATION TraceSpec
 CONSTANTS
   Caches <- CacheNames
   PfxInfo <- PfxTable
-  Fix <- NoFix
+  Fix <- AllFix
 CONSTRAINT TraceConstraint
 POSTCONDITION TraceAccepted
 CHECK_DEADLOCK FALSE
